@@ -52,4 +52,34 @@ PROPS = {
         "assumptions": COMMON_ASSUMPTIONS + ["a successful deposit that deposited nothing is not judged against the deposit limit"],
         "floors": {"quick": {"ix_ok/Deposit": 500, "ix_ok/Borrow": 100, "C17.up_to_limit_deposits_accepted": 50}},
     },
+    "C04": {
+        "engines": [storm("scen")],
+        "rule": "each evaluation is one accepted borrow/withdraw (committed or simulated) or one health rejection, judged against an independent exact-rational initial-health recomputation from raw bytes and the presented oracle accounts; boundaries are located by bisection with state-preserving simulations so both neighbours of the accept/reject boundary are judged; distinct = (accept/reject, kind, #assets, #liabs, e-mode used, cap active, bad collateral oracle, borderline)",
+        "assumptions": COMMON_ASSUMPTIONS + ["a health rejection is only judged when the caller presented the canonical risk accounts (otherwise it is attributable to mis-presented accounts)"],
+        "floors": {"quick": {"C04.accepted/Borrow": 200, "C04.accepted/Withdraw": 200, "C04.rejected_for_health/Borrow": 200, "scen.withdraw_boundary_found": 20}},
+    },
+    "C05": {
+        "engines": [storm("scen")],
+        "rule": "each evaluation is one accepted classic liquidation (committed or simulated at the bisected acceptance boundary) judged on pre/post reference maintenance health, flips, liquidator health and the 95/97.5/2.5 percent rule in exact rationals; distinct = (debt decimals, collateral decimals, #assets, #liabs, e-mode)",
+        "assumptions": COMMON_ASSUMPTIONS,
+        "floors": {"quick": {"C05.liquidations_accepted": 100, "scen.liquidation_boundary_found": 5}},
+    },
+    "C07": {
+        "engines": [storm("scen")],
+        "rule": "each evaluation is one accepted bankruptcy judged on equity (unweighted, isolated-tier deposits at full value), signer, insurance-first, pro-rata socialisation, kill state, account disabling; distinct = (regime, killed, permissionless, decimals, transfer fee)",
+        "assumptions": COMMON_ASSUMPTIONS,
+        "floors": {"quick": {"C07.bankruptcies_accepted": 40, "C07.regime/partial": 3, "C07.regime/fully_insured": 3}},
+    },
+    "C10": {
+        "engines": [storm("scen")],
+        "rule": "each evaluation is one receivership start/end instruction or one committed receivership transaction: reference maintenance health at start/end, seized vs repaid (equity values) against the premium limit located by bisection, transaction shape, surviving markers; distinct = (small account, #assets, #liabs, seized>0, repaid>0) and committed shapes",
+        "assumptions": COMMON_ASSUMPTIONS + ["'none via CPI' is applied to start and end (what the program checks); see DESIGN 4 C10"],
+        "floors": {"quick": {"C10.brackets_started": 50, "C10.brackets_committed": 5, "scen.receivership_boundary_found": 5}},
+    },
+    "C11": {
+        "engines": [storm()],
+        "rule": "each evaluation is one flash-loan start/end instruction, one committed transaction shape containing a start, or one end-time health rejection; distinct = shapes and end-state feature tuples",
+        "assumptions": COMMON_ASSUMPTIONS,
+        "floors": {"quick": {"C11.start_accepted": 50, "C11.end_accepted": 50, "C11.brackets_committed": 50}},
+    },
 }
